@@ -14,6 +14,21 @@ use wtransport_proto::ids::QStreamId;
 use wtransport_proto::settings::{SettingId, Settings};
 use wtransport_proto::stream_header::StreamHeader;
 
+
+/// sink behaviours for the asynchronous encoders: bytes accepted per write x Pending pattern. A Pending right after a
+/// partial write is the case in which progress kept in a local variable is lost.
+pub const SINKS: [(usize, u64); 8] = [
+    (1, 0),
+    (1, 0xaaaa_aaaa_aaaa_aaaa),
+    (1, 0x5555_5555_5555_5555),
+    (2, 0xaaaa_aaaa_aaaa_aaaa),
+    (3, 0x6666_6666_6666_6666),
+    (5, 0xaaaa_aaaa_aaaa_aaaa),
+    (13, 0x2222_2222_2222_2222),
+    (usize::MAX, 0x5555_5555_5555_5555),
+];
+
+
 fn viol(rep: &Report, what: String, scenario: Value) {
     rep.violation(Violation {
         what,
@@ -104,6 +119,27 @@ pub fn check_varint(v: u64, deep: bool) -> Result<(), String> {
         if out != r {
             return Err("async put_varint wrote different bytes".into());
         }
+        for (per, mask) in SINKS {
+            let mut sink = ScriptedSink::new(per, mask);
+            match poll_n(BytesWriterAsync::put_varint(&mut sink, lv), 64) {
+                Some(Ok(())) if sink.out == r => {}
+                other => return Err(format!("async put_varint into a sink taking {per} byte(s) per write, pending mask {mask:#x}: {:?}, wrote {}", other.map(|o| o.is_ok()), vx::hex(&sink.out))),
+            }
+            // the same bytes through put_buffer, and a destination that stops half way reports the error
+            let mut sink = ScriptedSink::new(per, mask);
+            match poll_n(BytesWriterAsync::put_buffer(&mut sink, &r), 64) {
+                Some(Ok(())) if sink.out == r => {}
+                other => return Err(format!("async put_buffer into a sink taking {per} byte(s) per write, pending mask {mask:#x}: {:?}, wrote {}", other.map(|o| o.is_ok()), vx::hex(&sink.out))),
+            }
+            if r.len() > 1 {
+                let mut sink = ScriptedSink::new(per, mask);
+                sink.fail_after = Some(r.len() / 2);
+                match poll_n(BytesWriterAsync::put_buffer(&mut sink, &r), 64) {
+                    Some(Err(_)) if r.starts_with(&sink.out) => {}
+                    other => return Err(format!("async put_buffer into a destination that stops after {} bytes: {:?}, wrote {}", r.len() / 2, other.map(|o| o.is_ok()), vx::hex(&sink.out))),
+                }
+            }
+        }
     }
     Ok(())
 }
@@ -189,6 +225,15 @@ pub fn check_frame(ty: u64, payload: &[u8], sid: Option<u64>, deep: bool) -> Res
     match poll_n(f.write_async(&mut out), 64) {
         Some(Ok(())) if out == expected => {}
         _ => return Err("write_async wrote different bytes".into()),
+    }
+    for (per, mask) in SINKS {
+        let mut sink = ScriptedSink::new(per, mask);
+        match poll_n(f.write_async(&mut sink), 4 * expected.len() + 64) {
+            Some(Ok(())) if sink.out == expected => {}
+            Some(Ok(())) => return Err(format!("write_async into a sink taking {per} byte(s) per write, pending mask {mask:#x}: wrote {} bytes {}, expected {} bytes", sink.out.len(), vx::hex(&sink.out[..sink.out.len().min(24)]), expected.len())),
+            Some(Err(e)) => return Err(format!("write_async into a sink taking {per} byte(s) per write: {e:?}")),
+            None => return Err(format!("write_async into a sink taking {per} byte(s) per write, pending mask {mask:#x}: does not complete ({} of {} bytes written)", sink.out.len(), expected.len())),
+        }
     }
     Ok(())
 }
@@ -277,6 +322,13 @@ pub fn check_stream_header(ty: u64, sid: Option<u64>) -> Result<(), String> {
     match poll_n(h.write_async(&mut out), 64) {
         Some(Ok(())) if out == expected => {}
         _ => return Err("write_async wrote different bytes".into()),
+    }
+    for (per, mask) in SINKS {
+        let mut sink = ScriptedSink::new(per, mask);
+        match poll_n(h.write_async(&mut sink), 4 * expected.len() + 64) {
+            Some(Ok(())) if sink.out == expected => {}
+            other => return Err(format!("stream header write_async into a sink taking {per} byte(s) per write, pending mask {mask:#x}: {:?}, wrote {}", other.map(|o| o.is_ok()), vx::hex(&sink.out))),
+        }
     }
     Ok(())
 }
